@@ -145,7 +145,7 @@ var kinds = []string{"file", "dir", "emptydir", "symlink", "device"}
 
 func build(rng *rand.Rand) ([]byte, string) {
 	var e enc
-	construct := []string{"name", "name", "name-nested", "surplus-goodbye", "symlink-then-dir", "symlink-then-file", "symlink-then-device", "nested-symlink-then-dir", "preexisting", "mix", "replace-chain", "replace-chain", "symlink-then-slashname"}[rng.Intn(13)]
+	construct := []string{"name", "name", "name-nested", "surplus-goodbye", "symlink-then-dir", "symlink-then-file", "symlink-then-device", "nested-symlink-then-dir", "preexisting", "mix", "replace-chain", "replace-chain", "symlink-then-slashname", "nameless", "nameless", "root-nondir", "random-sequence", "random-sequence"}[rng.Intn(18)]
 	kind := kinds[rng.Intn(len(kinds))]
 	name := hostileNames[rng.Intn(len(hostileNames))]
 	if rng.Intn(6) == 0 {
@@ -162,9 +162,103 @@ func build(rng *rand.Rand) ([]byte, string) {
 		e.filename(fmt.Sprintf("ok%d", rng.Intn(1000)))
 		e.node([]string{"file", "emptydir"}[rng.Intn(2)], rng)
 	}
-	e.entry(mDir) // root
+	if construct != "root-nondir" && construct != "random-sequence" {
+		e.entry(mDir) // root
+	}
 	tag := construct
 	switch construct {
+	case "nameless":
+		// an ENTRY without a FILENAME in front of it (legal only for the root): it takes the path of the directory it sits
+		// in, so a nameless file / symlink can replace that directory and later entries are created through it
+		depth := rng.Intn(3)
+		for k := 0; k < depth; k++ {
+			e.filename([]string{"a", "sub", "link-dir"}[rng.Intn(3)])
+			e.entry(mDir)
+		}
+		e.filename("f")
+		e.node("file", rng) // the decoder returns after a payload; the next ENTRY starts a fresh node
+		var chain []string
+		for k := 0; k < 1+rng.Intn(3); k++ {
+			kd := []string{"file", "symlink", "symlink-up", "device", "emptydir-open"}[rng.Intn(5)]
+			chain = append(chain, kd)
+			switch kd {
+			case "symlink":
+				e.entry(mLnk)
+				e.symlink([]string{"/outside", "../../../outside", "/", "/outside/sentinel"}[rng.Intn(4)])
+			case "symlink-up":
+				e.entry(mLnk)
+				e.symlink([]string{"..", "../..", "../../.."}[rng.Intn(3)])
+			case "emptydir-open":
+				e.entry(mDir | 0700)
+			default:
+				e.node(kd, rng)
+			}
+		}
+		for k := 0; k < 1+rng.Intn(3); k++ {
+			e.filename([]string{"planted", "sentinel", "sentinel-dir", "sub", "outside", "p"}[rng.Intn(6)])
+			e.node(kinds[rng.Intn(len(kinds))], rng)
+		}
+		for k := 0; k <= depth; k++ {
+			e.goodbye()
+		}
+		tag += fmt.Sprintf("|depth%d|%s", depth, strings.Join(chain, ">"))
+	case "root-nondir":
+		// the first entry (the one that becomes the destination itself) is not a directory, more entries follow
+		rk := []string{"symlink", "symlink-up", "file", "device"}[rng.Intn(4)]
+		switch rk {
+		case "symlink":
+			e.entry(mLnk)
+			e.symlink([]string{"/outside", "../../outside", "/", "/outside/sentinel"}[rng.Intn(4)])
+		case "symlink-up":
+			e.entry(mLnk)
+			e.symlink([]string{"..", "../..", "."}[rng.Intn(3)])
+		default:
+			e.node(rk, rng)
+		}
+		for k := 0; k < 1+rng.Intn(3); k++ {
+			e.filename([]string{"planted", "sentinel", "sentinel-dir", "sub", "q"}[rng.Intn(5)])
+			e.node(kinds[rng.Intn(len(kinds))], rng)
+		}
+		if rng.Intn(2) == 0 {
+			e.goodbye()
+		}
+		tag += "|" + rk
+	case "random-sequence":
+		// no grammar at all: a random sequence of elements
+		if rng.Intn(4) != 0 {
+			e.entry(mDir)
+		}
+		var sig []string
+		for k := 0; k < 3+rng.Intn(14); k++ {
+			switch rng.Intn(8) {
+			case 0:
+				e.entry(mDir | 0700)
+				sig = append(sig, "D")
+			case 1:
+				e.entry(mFile)
+				sig = append(sig, "F")
+			case 2:
+				e.entry(mLnk)
+				sig = append(sig, "L")
+			case 3:
+				e.payload([]byte("random sequence payload\n"))
+				sig = append(sig, "p")
+			case 4:
+				e.symlink([]string{"/outside", "..", "../../../outside", "/outside/sentinel", "/"}[rng.Intn(5)])
+				sig = append(sig, "s")
+			case 5:
+				e.goodbye()
+				sig = append(sig, "g")
+			case 6:
+				e.entry(mChr)
+				e.device()
+				sig = append(sig, "C")
+			default:
+				e.filename([]string{"a", "a", "planted", "sentinel", "sentinel-dir", "outside", "link-dir", "link-up", "p", "q", "sub"}[rng.Intn(11)])
+				sig = append(sig, "n")
+			}
+		}
+		tag += "|" + strings.Join(sig, "")
 	case "name":
 		if rng.Intn(2) == 0 {
 			benign()
@@ -308,7 +402,18 @@ func build(rng *rand.Rand) ([]byte, string) {
 	return e.Bytes(), tag
 }
 
-func prepareJail(jail string) {
+func prepareJail(jail string, dstState string) {
+	defer func() {
+		switch dstState {
+		case "absent":
+			os.RemoveAll(filepath.Join(jail, "p/q/dst"))
+		case "empty":
+			os.RemoveAll(filepath.Join(jail, "p/q/dst"))
+			os.Mkdir(filepath.Join(jail, "p/q/dst"), 0755)
+		}
+		t := time.Unix(1500000000, 0)
+		os.Chtimes(filepath.Join(jail, "p/q"), t, t)
+	}()
 	for _, d := range []string{"p/q/dst", "outside/sub", "sentinel-dir", "p/sentinel-dir", "p/q/sentinel-dir"} {
 		os.MkdirAll(filepath.Join(jail, d), 0755)
 	}
@@ -345,11 +450,16 @@ func run(c *harness.Ctx, i int) {
 	rng := c.Rng
 	raw, tag := build(rng)
 	mode := []string{"untar", "index"}[rng.Intn(2)]
-	c.Info("construct=%s mode=%s archive=%d bytes", tag, mode, len(raw))
-	c.LogInfo()
 	dir := c.CaseDir()
 	jail := filepath.Join(dir, "jail")
-	prepareJail(jail)
+	dstState := "populated"
+	if strings.HasPrefix(tag, "root-nondir") || strings.HasPrefix(tag, "random-sequence") || strings.HasPrefix(tag, "nameless") {
+		dstState = []string{"populated", "empty", "absent"}[rng.Intn(3)]
+	}
+	tag += "|dst-" + dstState
+	prepareJail(jail, dstState)
+	c.Info("construct=%s mode=%s archive=%d bytes", tag, mode, len(raw))
+	c.LogInfo()
 	before, err := treegen.Snapshot(jail)
 	dsu.Must(err)
 	self, _ := os.Executable()
@@ -369,7 +479,17 @@ func run(c *harness.Ctx, i int) {
 	}
 	after, err := treegen.Snapshot(jail)
 	dsu.Must(err)
-	diffs := treegen.Compare(outsideOf(before), outsideOf(after))
+	all := treegen.Compare(outsideOf(before), outsideOf(after))
+	// Creating or replacing the destination path itself (an archive whose first entry is a file, or a nameless entry at
+	// the top level) legitimately touches the directory holding it: its mtime is not an escape.
+	var diffs []treegen.Diff
+	for _, d := range all {
+		if d.Path == "p/q" && d.Field == "mtime" {
+			c.Count("destination_itself_replaced", 1)
+			continue
+		}
+		diffs = append(diffs, d)
+	}
 	outcome := "rejected"
 	if rerr == nil {
 		outcome = "accepted"
